@@ -1,6 +1,169 @@
-/- Driver/C04 — stub until the property's model driver is written. -/
+/-
+Driver/C04 — runs the executable models of the local storage (Model/Archive, Model/Container,
+with the C05 index model Model/Lsm) on protocol lines.  Three streams, selected by the `begin`
+line: `dyn` (DynamicContainer), `inst` (Installation), `arch` (ArchiveManager alone).
+MD5 = Spec/Md5; zlib / LZ4 are the graph of the (plain, compressed) pairs the request lines carry.
+-/
 import Driver.Common
-open Drv
+import Cascette.Model.Container
+import Cascette.Spec.Md5
+open Cascette Drv
+open Cascette.Model
+
+/-- codec table: (mode, plain, compressed) as seen on `aw` lines. -/
+abbrev Tab := List (Blte.Mode × Bytes × Bytes)
+
+def codecOf (t : Tab) : Blte.Codec :=
+  ⟨fun m x => (t.find? fun e => e.1 == m && e.2.1 == x).map (·.2.2),
+   fun m c => (t.find? fun e => e.1 == m && e.2.2 == c).map (·.2.1)⟩
+
+def paramsOf (t : Tab) : Archive.Params :=
+  ⟨Spec.Md5.md5, Archive.localHeader, Archive.remapFixed, codecOf t⟩
+
+inductive St
+  | none
+  | dyn (cfg : Lsm.Cfg) (s : Container.State)
+  | inst (cfg : Lsm.Cfg) (s : Container.IState)
+  | arch (s : Archive.State) (t : Tab)
+
+def fnv64 (b : Bytes) : UInt64 :=
+  b.foldl (fun h x => (h ^^^ UInt64.ofNat x.toNat) * 0x100000001b3) 0xcbf29ce484222325
+
+def showBytes (b : Bytes) : String :=
+  let n := b.length
+  let base := "ok " ++ toString n ++ " " ++ hexFixed 16 (fnv64 b).toNat
+  if n ≤ 40 then base ++ " " ++ hexOf b else base
+
+def errName : Archive.Err → String
+  | .noArchive => "err:noarchive"
+  | .bounds => "err:bounds"
+  | .blte => "err:blte"
+  | .mode => "err:archive"
+  | .tooLarge => "err:archive"
+  | .rollover => "err:rollover"
+
+def payload? (p f n : String) : Option Bytes :=
+  match parseHex p, f.toNat?, n.toNat? with
+  | some pre, some f, some n =>
+    if f < 256 ∧ n ≤ 64 * 2 ^ 20 then some (pre ++ List.replicate n (BitVec.ofNat 8 f)) else none
+  | _, _, _ => none
+
+def key? (s : String) : Option Bytes :=
+  match parseHex s with
+  | some k => if k.length = 16 then some k else none
+  | none => none
+
+def kv? (s pre : String) : Option Nat :=
+  if s.startsWith pre then (s.drop pre.length).toString.toNat? else none
+
+def showOut : Container.Out → String
+  | .ok => "ok"
+  | .bytes b => showBytes b
+  | .bool b => toString b
+  | .notFound => "err:notfound"
+  | .truncated => "err:truncated"
+  | .err e => errName e
+  | .indexErr => "err:other"
+
+def showIOut : Container.IOut → String
+  | .ok => "ok"
+  | .key k => "ok " ++ hexOf k
+  | .bytes b => showBytes b
+  | .bool b => toString b
+  | .notFound => "err:notfound"
+  | .err e => errName e
+  | .indexErr => "err:other"
+
+def dynOp? : List String → Option Container.Op
+  | ["w", p, f, n] => (payload? p f n).map .write
+  | ["r", k, bl] =>
+    match key? k, bl.toNat? with
+    | some k, some bl => if bl ≤ 80 * 2 ^ 20 then some (.read k bl) else none
+    | _, _ => none
+  | ["q", k] => (key? k).map .query
+  | ["rm", k] => (key? k).map .remove
+  | ["flush", b] => b.toNat?.bind fun b => if b < 256 then some (.flush b) else none
+  | ["flushall"] => some .flushAll
+  | ["reopen"] => some .reopen
+  | _ => none
+
+def instOp? : List String → Option Container.IOp
+  | ["w", p, f, n, c] =>
+    match payload? p f n, c with
+    | some d, "0" => some (.write d false)
+    | some d, "1" => some (.write d true)
+    | _, _ => none
+  | ["r", k] => (key? k).map .read
+  | ["q", k] => (key? k).map .has
+  | ["reopen"] => some .reopen
+  | _ => none
+
+def u16? (s : String) : Option Nat := s.toNat?.bind fun n => if n < 2 ^ 16 then some n else none
+def u32? (s : String) : Option Nat := s.toNat?.bind fun n => if n < 2 ^ 32 then some n else none
+
+def handle (st : St) (toks : List String) : St × String :=
+  match toks with
+  | "begin" :: kind :: rest =>
+    match kind, rest with
+    | "arch", [h] =>
+      if kv? h "hdr=" = some Archive.headerSize then (.arch Archive.State.init [], "ok") else (.none, "ok")
+    | k, [cp, pp, h] =>
+      if k ≠ "dyn" ∧ k ≠ "inst" then (st, "bad-op") else
+      match kv? cp "cap_pages=", kv? pp "per_page=", kv? h "hdr=" with
+      | some cp, some pp, some h =>
+        if h ≠ Archive.headerSize then (.none, "ok")
+        else if k = "dyn" then (.dyn ⟨cp, pp⟩ Container.State.init, "ok")
+        else (.inst ⟨cp, pp⟩ Container.IState.init, "ok")
+      | _, _, _ => (st, "bad-op")
+    | _, _ => (st, "bad-op")
+  | _ =>
+    match st with
+    | .none => (st, "bad-op")
+    | .dyn cfg s =>
+      match toks with
+      | ["count"] => (st, toString (Lsm.iter s.ix).length)
+      | ["marks"] => (st, toString s.marked.length)
+      | _ =>
+        match dynOp? toks with
+        | some op =>
+          let (s', o) := Container.step (paramsOf []) cfg s op
+          (.dyn cfg s', showOut o)
+        | none => (st, "bad-op")
+    | .inst cfg s =>
+      match instOp? toks with
+      | some op =>
+        let (s', o) := Container.istep (paramsOf []) cfg s op
+        (.inst cfg s', showIOut o)
+      | none => (st, "bad-op")
+    | .arch s t =>
+      match toks with
+      | ["aw", m, p, f, n, comp] =>
+        let mode? : Option Blte.Mode := if m = "N" then some .none else if m = "Z" then some .zlib
+          else if m = "4" then some .lz4 else none
+        match mode?, payload? p f n, parseHex comp with
+        | some mode, some d, some c =>
+          let t' : Tab := if mode = .none then t else (mode, d, c) :: t
+          match Archive.write (paramsOf t') s d mode with
+          | (s', .ok (id, off, total, key)) =>
+            (.arch s' t', "ok " ++ toString id ++ " " ++ toString off ++ " " ++ toString total ++ " " ++ hexOf key)
+          | (s', .error e) => (.arch s' t', errName e)
+        | _, _, _ => (st, "bad-op")
+      | ["ac", id, off, size] =>
+        match u16? id, u32? off, u32? size with
+        | some id, some off, some size =>
+          match Archive.readContent (paramsOf t) s id off size with
+          | .ok b => (st, showBytes b)
+          | .error e => (st, errName e)
+        | _, _, _ => (st, "bad-op")
+      | ["araw", id, off, size] =>
+        match u16? id, u32? off, u32? size with
+        | some id, some off, some size =>
+          match Archive.readRaw s id off size with
+          | .ok b => (st, showBytes b)
+          | .error e => (st, errName e)
+        | _, _, _ => (st, "bad-op")
+      | ["areopen"] => (.arch (Archive.reopen s) t, "ok")
+      | _ => (st, "bad-op")
 
 def main : IO Unit := do
-  loopPure (← IO.getStdin) (← IO.getStdout) (fun _ => "bad-op")
+  loopState (← IO.getStdin) (← IO.getStdout) handle St.none
